@@ -223,6 +223,8 @@ impl<T: Types> RaftLog<T> {
         let chunk_ids = Self::load_chunk_ids(&config)?;
 
         let mut sm = RaftLogStateMachine::new(&config);
+        // The eviction boundary in force while each chunk was loaded.
+        let mut evictable_when_loaded = BTreeMap::new();
         let mut closed = BTreeMap::new();
         let mut prev_end_offset = None;
         let mut last_log_id = None;
@@ -232,6 +234,7 @@ impl<T: Types> RaftLog<T> {
             // Only the last chunk(open chunk) needs to keep all log payload in
             // cache. Therefore, payloads in previous chunks are marked as
             // evictable.
+            evictable_when_loaded.insert(chunk_id, last_log_id.clone());
             sm.payload_cache.write().unwrap().set_last_evictable(last_log_id);
 
             Self::ensure_consecutive_chunks(prev_end_offset, chunk_id)?;
@@ -268,6 +271,17 @@ impl<T: Types> RaftLog<T> {
         }
 
         let open = Self::reopen_last_closed(&mut closed);
+
+        // A re-opened chunk is the open chunk again: its payloads can only be
+        // served from the cache, so the eviction boundary must be the one
+        // that was in force while it was loaded. (They differ when an empty
+        // newest chunk was removed above and the chunk before it is re-opened.)
+        if let Some(open) = &open {
+            let boundary = evictable_when_loaded
+                .remove(&open.chunk.chunk_id())
+                .flatten();
+            sm.payload_cache.write().unwrap().set_last_evictable(boundary);
+        }
 
         let open = if let Some(open) = open {
             open
